@@ -83,5 +83,9 @@ if __name__ == '__main__':
     mp = os.path.join(res['seed'], 'meta.json')
     if os.path.exists(mp) and os.path.realpath(res['seed']).startswith(VERIF):
         m = json.load(open(mp))
-        m.setdefault('verification', {}).update({k: v for k, v in res.items() if k != 'seed'})
+        ver = m.setdefault('verification', {})
+        checks = dict(ver.get('checks', {}))
+        checks.update(res.get('checks', {}))            # results of other checks run earlier are kept
+        ver.update({k: v for k, v in res.items() if k not in ('seed', 'checks')})
+        ver['checks'] = checks
         json.dump(m, open(mp, 'w'), indent=1)
